@@ -73,14 +73,14 @@ func (n *c14node) RequestToJoin(chord.VNode) (chord.VNode, []chord.VNode, error)
 	}
 	return n, []chord.VNode{n}, nil
 }
-func (n *c14node) FinishJoin(bool, bool) error                              { return n.err }
-func (n *c14node) RequestToLeave(chord.VNode) error                         { return n.err }
-func (n *c14node) FinishLeave(bool, bool) error                             { return n.err }
-func (n *c14node) Put(context.Context, []byte, []byte) error                { return n.err }
-func (n *c14node) Get(context.Context, []byte) ([]byte, error)              { return nil, n.err }
-func (n *c14node) Delete(context.Context, []byte) error                     { return n.err }
-func (n *c14node) PrefixAppend(context.Context, []byte, []byte) error       { return n.err }
-func (n *c14node) PrefixList(context.Context, []byte) ([][]byte, error)     { return nil, n.err }
+func (n *c14node) FinishJoin(bool, bool) error                          { return n.err }
+func (n *c14node) RequestToLeave(chord.VNode) error                     { return n.err }
+func (n *c14node) FinishLeave(bool, bool) error                         { return n.err }
+func (n *c14node) Put(context.Context, []byte, []byte) error            { return n.err }
+func (n *c14node) Get(context.Context, []byte) ([]byte, error)          { return nil, n.err }
+func (n *c14node) Delete(context.Context, []byte) error                 { return n.err }
+func (n *c14node) PrefixAppend(context.Context, []byte, []byte) error   { return n.err }
+func (n *c14node) PrefixList(context.Context, []byte) ([][]byte, error) { return nil, n.err }
 func (n *c14node) PrefixContains(context.Context, []byte, []byte) (bool, error) {
 	return false, n.err
 }
